@@ -80,6 +80,10 @@ CHECKS = {
   "I/O-boundary fault injection: every read offset, every prefix, every write-call index and byte offsets, with delivery of each fault logged",
   "For each input file of the five entry points a read fault is injected after every byte offset 0..len, as an error alone and as an error returned together with the last good bytes (for the latter a companion run with the same bytes and a clean end decides whether the library ever runs out of the delivered data), plus failing Seek calls for type1.Read; every prefix of font and CMap files is read and must give an error or the result of the whole file. For each font and metrics value and each output (Font.Write in four formats, WritePDF, Metrics.Write) a counting pass measures the write calls and bytes, then every call index fails (one-shot and sticky) and short writes are injected at byte offsets. A fault that reached the library must come back as a non-nil error; a panic is a violation.",
   "Faults the library never asked for (it had legitimately stopped reading: stop, end marker) are counted separately and assert nothing. Quick tier strides the short-write offsets beyond 2 KiB (every offset in thorough)."),
+ "C18": ("exploration", "DESIGN.md 11/C18",
+  "Go race detector over a repeated concurrent workload in fresh processes + per-call equality with sequential results; isolation probe battery after hostile histories",
+  "The worker is built with -race. Isolation: seeded histories of hostile programs (overwriting every systemdict key, all StandardEncoding slots, every CIDInit procedure and errordict handler, polluting FontDirectory, resource categories and internaldict, leaving dictionary stacks unbalanced, failing half-way by type error, budget, syntax error or read fault; fed through Execute, ReadCMap and type1.Read) are followed by a fixed battery of about 80 probe calls whose digests must equal those of the pristine process. Races: fresh child processes each start 16 goroutines from a barrier; each runs 30-60 seeded calls mixing interpreter runs in own instances, ReadCMap, type1.Read on four containers, afm.Read, all writers on shared font/metrics values and the name functions, the first call of every goroutine aimed at one of the three lazily built name tables. WARNING: DATA RACE blocks are counted in the detector's log files (exit codes are not trusted) and deduplicated by the pair of innermost library frames; each concurrent result must equal the sequential result of the same call.",
+  "The race detector reports races on the executions it sees; linearizability checking is not applicable (the only shared object is a write-once table of pure functions, so per-call equality with the sequential result is the whole check)."),
 }
 
 NOT_CLAIMED = {}
